@@ -167,7 +167,8 @@ def run_parent(prop: str, tier: str, seed: int, mod) -> int:
     for i in range(nshards):
         out = os.path.join(WORK, f"{prop}.{tier}.{seed}.{i}.{os.getpid()}.json")
         env = dict(os.environ)
-        env["PYTHONHASHSEED"] = "0" if tier == "quick" else str(i % 16)
+        # set iteration order is a hidden input of union_simplify / intersect_simplify: vary it per shard
+        env["PYTHONHASHSEED"] = str((seed + i) % 16)
         env["PYTHONDONTWRITEBYTECODE"] = "1"
         cmd = [sys.executable, "-m", "vf.main", prop, "--tier", tier, "--seed", str(seed),
                "--shard", str(i), "--nshards", str(nshards), "--shard-out", out]
